@@ -534,7 +534,7 @@ def run(ck):
     ]
     ck.rule = ("unit: random operation sequences (enqueue sizes 8..249 equal / two sizes / mixed; next; confirm oldest outstanding; reset-to-waiting; queries; release) for N in {1,2,3,4,8}; "
                "trace: enqueue / activate / acknowledge prefixes / connection loss (peer close, write error, STOPDT+close) / reconnect, k in {1,2,3,12}; non-trivial = distinct script")
-    ck.explanation = "PARTIAL: (1) event-log theorems for every history (acknowledged never resent, loss re-arms, ids unique); (2) the byte-offset MessageQueue ring (literal transcription, run against the C functions on every run) is proved for every ring size and every history: no stale header read, entries inside the arena, enqueue displaces only a prefix of the oldest entries, getNextWaiting = oldest waiting entry, confirmation safe for every (pointer, id) pair ever handed out. (3) the ring operations are proved to BE the list operations of the server model under the abstraction that forgets offsets (C06_refine_*), displacement of the D oldest entries being the only difference. NOT proved: the capacity clause (N equal-size entries retained), which the oracle evaluates on the queue functions and on the real server in both group modes; the server model's trace theorems assume D = 0."
+    ck.explanation = "PARTIAL: (1) event-log theorems for every history (acknowledged never resent, loss re-arms, ids unique); (2) the byte-offset MessageQueue ring (literal transcription, run against the C functions on every run) is proved for every ring size and every history: no stale header read, entries inside the arena, enqueue displaces only a prefix of the oldest entries, getNextWaiting = oldest waiting entry, confirmation safe for every (pointer, id) pair ever handed out. (3) the ring operations are proved to BE the list operations of the server model under the abstraction that forgets offsets (C06_refine_*), displacement of the D oldest entries being the only difference. (4) the capacity clause is proved on the ring (Cs104/MqCapacity.v, C06_capacity_equal_sizes): for every ring size n, ASDU size z and history with equal-size ASDUs an enqueue displaces an entry only if at least n entries remain, and then exactly one; the oracle additionally evaluates it on the queue functions and on the real server in both group modes. NOT proved: the composition of the server model (abstract log, trace theorems assume D = 0) with the ring into one trace theorem."
     ck.coq("C06")
     h = harness()
     try:
